@@ -146,6 +146,8 @@ Calls ==
      \* the entry keeps its metadata, a frozen NFT does not move, a user attempting the same is refused
      {MkCall(f, "esdtsc", a, <<TokArg(TokAlias)>>, 0) : f \in {"ESDTFreeze", "ESDTUnFreeze"}, a \in FreezeAccts}
      \cup {MkCall("ESDTFreeze", "u0b", "u0a", <<TokArg(TokAlias)>>, 0)}
+     \* a holder moves the item under the return-after-error flag (freeze and pause do not apply; the flag itself must stay where it is)
+     \cup {[MkCall("ESDTNFTTransfer", a, a, <<TokArg(TokN), NumArgC(1), NumArgC(1), AddrArgC(b)>>, 0) EXCEPT !.rae = TRUE] : a \in Hs, b \in Hs}
    ELSE {})
   \cup (IF "roles" \in Fns THEN
      {MkCall("ESDTSetRole", "esdtsc", a, <<TokArg(TokF), RawArg(r)>>, 0) : a \in {"u0b"}, r \in {RoleMint, RoleBurn}}
